@@ -8,7 +8,7 @@ use crate::ensure;
 use crate::runner::*;
 use crate::vterm::VTerm;
 
-#[derive(Debug, Clone, Copy, Serialize, Deserialize)]
+#[derive(Debug, Clone, Copy, Serialize, Deserialize, PartialEq)]
 pub enum Gap {
     Zero,
     Ns(u32),
@@ -44,6 +44,10 @@ pub enum Call {
     SteadyOff,
     /// MultiProgress targets: finish and drop the next of six members that render nothing
     DropDecoy,
+    /// two bars of one MultiProgress: update() of one bar whose closure takes this long (the clock advances
+    /// inside it) and ticks the other bar - that request reaches the shared limiter first, with the later time
+    /// stamp; the outer request follows with the time stamp taken before the closure ran
+    NestedUpdate(Gap),
 }
 
 #[derive(Debug, Clone, Serialize, Deserialize)]
@@ -145,6 +149,47 @@ fn run_rate(c: &RateCase) -> CaseResult {
         let bi = if c.mode % 4 == 2 { i % 2 } else { 0 };
         let call = &if c.full && matches!(call, Call::Inc | Call::SetPosition | Call::Dec | Call::SetLength | Call::Update) { Call::SetSameLength } else { *call };
         let before = vt.nflush();
+        if let Call::NestedUpdate(inner) = call {
+            if bars.len() < 2 {
+                continue;
+            }
+            let (a, b) = (bi, 1 - bi);
+            bars[a].pos += 3;
+            let p = bars[a].pos;
+            let other = bars[b].pb.clone();
+            let d = gap_ns(*inner, r);
+            bars[a].pb.update(|s| {
+                s.set_pos(p);
+                clock::advance_ns(d);
+                other.tick();
+            });
+            let now = clock::now_ns();
+            let k_new = vt.nflush() - before;
+            let ctx = format!("call #{i} {call:?} at t={now} ns (the closure took {d} ns, rate {r}/s, mode {})", c.mode % 4);
+            ensure!(k_new <= 2, "double_frame", "{ctx}: two requests painted {k_new} frames");
+            // both requests are ordinary: whatever they paint counts against the window bound, at the time it is on screen
+            for _ in 0..k_new {
+                painted_n += 1;
+                let k = paints.len() as i128;
+                let gk = k * 1_000_000_000 - r as i128 * now as i128;
+                let m = min_g.map_or(gk, |m| m.min(gk));
+                min_g = Some(m);
+                ensure!(
+                    gk - m <= 20 * 1_000_000_000,
+                    "rate_bound",
+                    "{ctx}: more than 20 + R*T + 1 ordinary frames in a window ending here: frame #{k} since the worst window start (last frames at {:?} ns)",
+                    &paints[paints.len().saturating_sub(5)..]
+                );
+                paints.push(now);
+                last_paint = Some(now);
+            }
+            drawn[a] = true;
+            drawn[b] = true;
+            acceptable[a] = vec![bars[a].line()];
+            acceptable[b] = vec![bars[b].line()];
+            v.label_if(d > 0, "request_with_an_older_time_stamp_than_the_last_frame");
+            continue;
+        }
         if matches!(call, Call::DropDecoy) {
             // order 1, 0, 3, 2, 5, 4: first the lower one of a pair (it stays listed behind the head), then the head
             let order = [1usize, 0, 3, 2, 5, 4];
@@ -169,7 +214,7 @@ fn run_rate(c: &RateCase) -> CaseResult {
         {
             let b = &mut bars[bi];
             match call {
-                Call::SteadyZero | Call::SteadyOff | Call::DropDecoy => unreachable!(),
+                Call::SteadyZero | Call::SteadyOff | Call::DropDecoy | Call::NestedUpdate(_) => unreachable!(),
                 Call::Update => {
                     b.pos += 3;
                     let p = b.pos;
@@ -287,7 +332,7 @@ fn rate_strategy(tier: Tier) -> BoxedStrategy<RateCase> {
     let n = tier.pick(400, 2000);
     let call = prop_oneof![4 => Just(Call::Tick), 2 => Just(Call::SetMessage), 1 => Just(Call::SetLength), 1 => Just(Call::SetSameLength), 3 => Just(Call::Inc), 1 => Just(Call::SetPosition), 1 => Just(Call::Dec)];
     let rate = || prop_oneof![2 => prop_oneof![Just(1u8), Just(3), Just(7), Just(20), Just(30), Just(60), Just(255)], 1 => 1u8..=255];
-    let call = prop_oneof![28 => call, 2 => Just(Call::IncZero), 3 => Just(Call::Update), 1 => Just(Call::SteadyZero), 1 => Just(Call::SteadyOff), 1 => Just(Call::DropDecoy)];
+    let call = prop_oneof![28 => call, 2 => Just(Call::IncZero), 3 => Just(Call::Update), 1 => Just(Call::SteadyZero), 1 => Just(Call::SteadyOff), 1 => Just(Call::DropDecoy), 3 => gap_strategy().prop_map(Call::NestedUpdate)];
     let free = (rate(), 0u8..4, proptest::collection::vec((gap_strategy(), call.clone()), 30..n), proptest::bool::weighted(0.15)).prop_map(|(rate, mode, calls, full)| RateCase { full, rate, mode, calls });
     // the burst is used up at the creation instant, then requests arrive exactly at, one ns before and
     // one ns after whole refresh intervals (the boundary of "at least one refresh interval after the
@@ -475,6 +520,10 @@ pub struct TickerCase {
     /// the bar is suspended for this long (the ticker cannot draw meanwhile)
     stall_ms: u16,
     in_multi: bool,
+    /// afterwards the bar is finished, reset and given a steady ticker with the very same interval again: it
+    /// is redrawn regularly again
+    #[serde(default)]
+    restart: bool,
 }
 
 /// The frame-rate bound also holds for the requests the steady ticker issues, in particular right after it
@@ -497,6 +546,18 @@ fn run_ticker(c: &TickerCase) -> CaseResult {
     let stall = Duration::from_millis(200 + c.stall_ms as u64 % 500);
     pb.suspend(|| std::thread::sleep(stall));
     std::thread::sleep(Duration::from_millis(150));
+    if c.restart {
+        let d = Duration::from_millis(1 + c.tick_ms as u64 % 4);
+        pb.finish();
+        std::thread::sleep(Duration::from_millis(40));
+        pb.reset();
+        pb.enable_steady_tick(d);
+        let n1 = term.flushes.lock().unwrap().len();
+        std::thread::sleep(Duration::from_millis(400));
+        let n2 = term.flushes.lock().unwrap().len();
+        // (400 ms at 20 Hz or more: at least 8 refresh intervals have passed)
+        ensure!(n2 >= n1 + 2, "stale_ticker", "finish(), reset(), enable_steady_tick({d:?}) again with the same interval on a {rate} Hz target: {} frame(s) were painted in the following 400 ms", n2 - n1);
+    }
     pb.disable_steady_tick();
     let frames: Vec<std::time::Instant> = term.flushes.lock().unwrap().iter().map(|f| f.0).collect();
     drop(pb);
@@ -524,6 +585,7 @@ fn run_ticker(c: &TickerCase) -> CaseResult {
     v.nontrivial = true;
     v.label("ticker_held_up_then_released");
     v.label_if(c.in_multi, "multi_progress_target");
+    v.label_if(c.restart, "ticker_restarted_with_the_same_interval_after_finish_and_reset");
     Ok(v)
 }
 
@@ -599,7 +661,7 @@ pub fn property() -> Property {
         parts: vec![
             Box::new(Gen::<RateCase> {
                 name: "frames",
-                rule: "refresh rate from {1,3,7,20,30,60,255} or 1..=255; standalone term_like_with_hz, first bar of a MultiProgress, two bars of a MultiProgress alternating, or a MultiProgress that is created hidden and given the terminal after its members were added (six further members that render nothing are finished and dropped on request, so that dropped-but-listed members reach the head of the list while ordinary requests arrive); 30-400 (thorough 2000) ordinary requests (tick/set_message/set_length/inc/inc(0)/set_position/dec/update(set_pos) with monotone payloads; enable_steady_tick(0) and disable_steady_tick() without a ticker interleaved as calls that request nothing) at gaps from {0, ns, <1 ms, k*interval +-1 ns for k<25, interval/2, ms, s, hours}; window law via the running minimum of k*1e9 - R*t_k, staleness law per request, every painted frame compared with the latest state of all drawn bars; non-trivial = skipped and painted draws and a gap at an interval multiple",
+                rule: "refresh rate from {1,3,7,20,30,60,255} or 1..=255; standalone term_like_with_hz, first bar of a MultiProgress, two bars of a MultiProgress alternating, or a MultiProgress that is created hidden and given the terminal after its members were added (six further members that render nothing are finished and dropped on request, so that dropped-but-listed members reach the head of the list while ordinary requests arrive); 30-400 (thorough 2000) ordinary requests (tick/set_message/set_length/inc/inc(0)/set_position/dec/update(set_pos) with monotone payloads; enable_steady_tick(0) and disable_steady_tick() without a ticker interleaved as calls that request nothing; update() of one bar whose closure takes time and ticks the other bar, so that requests reach the shared limiter with time stamps out of order) at gaps from {0, ns, <1 ms, k*interval +-1 ns for k<25, interval/2, ms, s, hours}; window law via the running minimum of k*1e9 - R*t_k, staleness law per request, every painted frame compared with the latest state of all drawn bars; non-trivial = skipped and painted draws and a gap at an interval multiple",
                 strategy: rate_strategy,
                 cases: |t| t.pick(1_500, 48_000),
                 run: run_rate,
@@ -625,12 +687,12 @@ pub fn property() -> Property {
             }),
             Box::new(Gen::<TickerCase> {
                 name: "ticker_requests",
-                rule: "real clock: a steady ticker (1-4 ms) on a 20-200 Hz target (stand-alone or MultiProgress) runs 120 ms, is held up by suspend() for 200-700 ms and runs 150 ms more; the real flush instants must satisfy the window bound 20 + R*T + 1 (slack 12 for scheduling delays)",
-                strategy: |_| (20u8..=200, 0u8..4, any::<u16>(), any::<bool>()).prop_map(|(rate, tick_ms, stall_ms, in_multi)| TickerCase { rate, tick_ms, stall_ms, in_multi }).boxed(),
+                rule: "real clock: a steady ticker (1-4 ms) on a 20-200 Hz target (stand-alone or MultiProgress) runs 120 ms, is held up by suspend() for 200-700 ms and runs 150 ms more; in half of the cases the bar is then finished, reset and given a ticker with the same interval again (it must be redrawn again); the real flush instants must satisfy the window bound 20 + R*T + 1 (slack 12 for scheduling delays)",
+                strategy: |_| (20u8..=200, 0u8..4, any::<u16>(), any::<bool>()).prop_map(|(rate, tick_ms, stall_ms, in_multi)| TickerCase { rate, tick_ms, stall_ms, in_multi, restart: stall_ms % 2 == 0 }).boxed(),
                 cases: |t| t.pick(2, 60),
                 run: run_ticker,
                 signature: no_signature,
-                essential: &["ticker_held_up_then_released"],
+                essential: &["ticker_held_up_then_released", "ticker_restarted_with_the_same_interval_after_finish_and_reset"],
                 workers: 6,
                 decode: None,
             }),
